@@ -588,6 +588,15 @@ func alwaysFails(h *ssa.Function, d int) bool {
 			n++
 			continue
 		}
+		// `if err := f(); err != nil { return err }`: the value was found non-nil on the way to this return
+		sv := strip(v)
+		tested := edgesWhere(h, func(a Atom, holds bool) bool {
+			return a.Kind == "nil" && !holds && len(a.Env) == 0 && strip(a.X) == sv
+		})
+		if len(tested) > 0 && mustPassEdges(h, r.Block(), tested) {
+			n++
+			continue
+		}
 		cl, _ := callOf(v)
 		if cl == nil {
 			return false
